@@ -474,7 +474,7 @@ where
         let offset;
         if !received_version.is_normal() {
             packet_no = int!("packet_no");
-            if packet_no < 1 || packet_no > 64 {
+            if packet_no < 1 || packet_no >= 64 {
                 return fail("packet_no sanity check");
             }
             offset = 0;
